@@ -1,9 +1,4 @@
-use crypto_glue::{
-    hmac_s1::{HmacSha1, HmacSha1Key},
-    hmac_s256::{HmacSha256, HmacSha256Key},
-    hmac_s512::{HmacSha512, HmacSha512Key},
-    traits::Mac,
-};
+use crypto_glue::{hmac_s1::HmacSha1, hmac_s256::HmacSha256, hmac_s512::HmacSha512, traits::Mac};
 use kanidm_proto::internal::{TotpAlgo as ProtoTotpAlgo, TotpSecret as ProtoTotp};
 use rand::RngExt;
 use std::convert::{TryFrom, TryInto};
@@ -62,47 +57,26 @@ impl TotpAlgo {
     pub(crate) fn digest(self, key_bytes: &[u8], counter: u64) -> Result<Vec<u8>, TotpError> {
         let hmac = match self {
             TotpAlgo::Sha1 => {
-                let mut key = HmacSha1Key::default();
-
-                if key_bytes.len() > key.as_slice().len() {
-                    return Err(TotpError::InvalidKeyError);
-                }
-
-                #[allow(clippy::indexing_slicing)]
-                let key_ref = &mut key.as_mut_slice()[..key_bytes.len()];
-                key_ref.copy_from_slice(key_bytes);
-
-                let mut hmac = HmacSha1::new(&key);
+                // RFC 2104: a key of any length is valid. Keys shorter than the block are
+                // zero padded, keys longer than the block are hashed first.
+                let mut hmac = <HmacSha1 as Mac>::new_from_slice(key_bytes)
+                    .map_err(|_| TotpError::InvalidKeyError)?;
                 hmac.update(&counter.to_be_bytes());
                 hmac.finalize().into_bytes().to_vec()
             }
             TotpAlgo::Sha256 => {
-                let mut key = HmacSha256Key::default();
-
-                if key_bytes.len() > key.as_slice().len() {
-                    return Err(TotpError::InvalidKeyError);
-                }
-
-                #[allow(clippy::indexing_slicing)]
-                let key_ref = &mut key.as_mut_slice()[..key_bytes.len()];
-                key_ref.copy_from_slice(key_bytes);
-
-                let mut hmac = HmacSha256::new(&key);
+                // RFC 2104: a key of any length is valid. Keys shorter than the block are
+                // zero padded, keys longer than the block are hashed first.
+                let mut hmac = <HmacSha256 as Mac>::new_from_slice(key_bytes)
+                    .map_err(|_| TotpError::InvalidKeyError)?;
                 hmac.update(&counter.to_be_bytes());
                 hmac.finalize().into_bytes().to_vec()
             }
             TotpAlgo::Sha512 => {
-                let mut key = HmacSha512Key::default();
-
-                if key_bytes.len() > key.as_slice().len() {
-                    return Err(TotpError::InvalidKeyError);
-                }
-
-                #[allow(clippy::indexing_slicing)]
-                let key_ref = &mut key.as_mut_slice()[..key_bytes.len()];
-                key_ref.copy_from_slice(key_bytes);
-
-                let mut hmac = HmacSha512::new(&key);
+                // RFC 2104: a key of any length is valid. Keys shorter than the block are
+                // zero padded, keys longer than the block are hashed first.
+                let mut hmac = <HmacSha512 as Mac>::new_from_slice(key_bytes)
+                    .map_err(|_| TotpError::InvalidKeyError)?;
                 hmac.update(&counter.to_be_bytes());
                 hmac.finalize().into_bytes().to_vec()
             }
